@@ -200,3 +200,52 @@ def run(ck):
             stale.append('static ' + nd.get('n', '?'))
     ck.ob('C27.fresh', 'C27.fresh/no-server-lifetime-request', not stale, hc.loc(),
           'the control server keeps no request object across connections (found %s)' % (stale or 'none'))
+
+    # ---- the configured token is only ever read here (never moved from, swapped, reset or assigned) ---------------------------------
+    nread = 0
+    spoil = []
+    MUTATORS = ('std::move', 'std::exchange', 'std::swap', 'std::forward')
+    for f in P.fns:
+        for i in f.walk():
+            nd = f.nodes[i]
+            if nd['k'] != 'MemberExpr' or nd.get('m') != TOKEN_FIELD:
+                continue
+            nread += 1
+            for a in f.ancestors(i):
+                an_ = f.nodes[a]
+                if an_['k'] in ('CompoundStmt', 'DeclStmt', 'IfStmt', 'ReturnStmt'):
+                    break
+                c_ = an_.get('callee') or ''
+                if c_ in MUTATORS or c_.endswith(('::swap', '::reset', '::emplace')) and an_['k'] == 'CXXMemberCallExpr' and f.receiver(a) is not None and f.is_in(i, f.receiver(a)) \
+                        or an_['k'] in ('BinaryOperator', 'CXXOperatorCallExpr', 'CompoundAssignOperator') and an_.get('op') == '=' and \
+                        f.is_in(i, f.kids(a)[1 if an_['k'] == 'CXXOperatorCallExpr' else 0]):
+                    spoil.append((f, i, c_ or 'assignment'))
+                    break
+    ck.floor('C27.own', 'reads of Config::control_token in the control server', nread, 3)
+    ck.ob('C27.own', 'C27.own/token-read-only', not spoil, spoil[0][0].loc(spoil[0][1]) if spoil else '',
+          'the control server only copies the configured token for comparison: it is never assigned, moved from, swapped or reset (a moved-from '
+          'token is an empty token that an empty TOKEN header matches)' + ('' if not spoil else ' — %s' % spoil[0][2]))
+
+    # ---- the header value compared is the bytes after the colon, unedited -------------------------------------------------------
+    from sa.flow import origin_chain
+    pr_ = pr
+    stores = [i for i in pr_.walk() if pr_.nodes[i]['k'] == 'CXXOperatorCallExpr' and pr_.nodes[i].get('op') == '=' and
+              any(pr_.nodes[j]['k'] == 'MemberExpr' and (pr_.nodes[j].get('m') or '').endswith('ParsedRequest::fields') for j in pr_.walk(pr_.kids(i)[1]))]
+    ck.floor('C27.fresh', 'header stores in parse_request', len(stores), 1)
+    for i in stores:
+        rhs = pr_.kids(i)[2]
+        via = []
+        seen_substr = False
+        for x in origin_chain(pr_, rhs):
+            for j in pr_.walk(x):
+                c_ = pr_.nodes[j].get('callee') or ''
+                if not c_:
+                    continue
+                if c_.endswith('basic_string<char>::substr'):
+                    seen_substr = True
+                elif pr_.nodes[j]['k'] in ('CallExpr', 'CXXMemberCallExpr') and not c_.startswith('std::basic_string<char>::basic_string') \
+                        and not c_.endswith(('::find', '::operator+', '::size')):
+                    via.append(c_.split('::')[-1])
+        ck.ob('C27.fresh', 'C27.fresh/header-value-verbatim', seen_substr and not via, pr_.loc(i),
+              'the value stored for a header is line.substr(pos + 1) itself: nothing trims, truncates or rewrites it before the token comparison'
+              + ('' if not via else ' — passes through %s()' % via[0]))
